@@ -49,8 +49,13 @@ theorem facts_float_format : Gen.floatExpFormat = [(0x67, -1, 64), (0x67, -1, 64
 of an out-of-range float is implementation-defined, so it is never performed),
 guard `i := int64(e.Value); float64(i) == e.Value`,
 then `strconv.AppendInt(buf, i, 10)` — and both `MarshalJSON` and `EncodeJSON`
-of `FloatExp` go through it. -/
-theorem facts_float_json_shape : Gen.floatJsonShape =
+of `FloatExp` go through it.  The ORDER "range check before the conversion" is observable by no run on
+amd64 (the out-of-range conversion is implementation-defined, not wrong here), so this fact is its only
+tie: the obligation includes `_extracted = true`, i.e. a defeated extraction pattern breaks it instead of
+falling back to the committed default (audit: facts fail open).  `facts_split_key` and
+`facts_float_format` may fall back: the binding correspondence on split arguments and the float
+token-class stream detect a semantic change of either. -/
+theorem facts_float_json_shape : Gen.floatJsonShape_extracted = true ∧ Gen.floatJsonShape =
     ["range e.Value >= -9223372036854775808.0 && e.Value < 9223372036854775808.0",
      "init i := int64(e.Value)", "cond float64(i) == e.Value", "then strconv.AppendInt(buf, i, 10)",
      "caller EncodeJSON", "caller MarshalJSON"] := by decide
